@@ -74,7 +74,10 @@ func NewLexer(source []rune) *Lexer {
 
 // Next - return current rune, and move forward the cursor for 1 character.
 func (l *Lexer) Next() rune {
-	l.cursor += 1
+	// the cursor never exceeds the end of source
+	if l.cursor < len(l.Source) {
+		l.cursor += 1
+	}
 
 	// still no data, return EOF directly
 	return l.getChar(l.cursor)
